@@ -32,6 +32,7 @@ type pSpec struct {
 	bounds  bool
 	boundsFirst bool // _onBounds is declared before the action methods
 	literals    bool // tokens are written as their literal ('a') in the parser section
+	rootNil     bool // the start rule's action has result type any and returns nil
 	discard string // token whose Discard() is true (for *!)
 	maxLen  int
 	withErr bool // inputs also contain lexer ERROR tokens
@@ -186,6 +187,14 @@ func (s pSpec) userCode() string {
 					sb.WriteString(", ")
 				}
 				fmt.Fprintf(&sb, "a%d %s", j, s.goType(t))
+			}
+			if s.rootNil && r.name == s.rules[0].name {
+				fmt.Fprintf(&sb, ") any {\n\tp.mk(%q, %d", r.name, k)
+				for j := range p.terms {
+					fmt.Fprintf(&sb, ", a%d", j)
+				}
+				sb.WriteString(")\n\treturn nil\n}\n\n")
+				continue
 			}
 			fmt.Fprintf(&sb, ") *Node {\n\treturn p.mk(%q, %d", r.name, k)
 			for j := range p.terms {
@@ -778,7 +787,7 @@ func parseFixtures() []pSpec {
 			{"z", []pProd{P(tk("E"), tk("E")), P()}},
 		}},
 		// the same feature detected when _onBounds is not the last method of the parser type
-		{name: "bounds-declared-first", bounds: true, boundsFirst: true, tokens: []string{"A", "B", "C"}, maxLen: 4, rules: []pRule{
+		{name: "bounds-declared-first", bounds: true, boundsFirst: true, rootNil: true, tokens: []string{"A", "B", "C"}, maxLen: 4, rules: []pRule{
 			{"s", []pProd{P(rl("m"), sugar("star", rl("y")), tk("C"))}},
 			{"m", []pProd{P(sugar("opt", tk("A")))}},
 			{"y", []pProd{P(B)}},
@@ -998,7 +1007,7 @@ func TestGeneratedParser(t *testing.T) {
 				continue
 			}
 			if spec.bounds {
-				checkBounds(rep, label, tree, got)
+				checkBounds(rep, label, tree, got, spec.rootNil)
 			}
 		}
 		rep.sample(name)
@@ -1007,7 +1016,7 @@ func TestGeneratedParser(t *testing.T) {
 }
 
 // checkBounds: C16 for user-written productions.
-func checkBounds(rep *report, label string, tree *sx, got parseOut) {
+func checkBounds(rep *report, label string, tree *sx, got parseOut, rootNil bool) {
 	calls := map[string][][2]int{}
 	for _, b := range got.Bounds {
 		calls[b.What] = append(calls[b.What], [2]int{b.Begin, b.End})
@@ -1036,6 +1045,9 @@ func checkBounds(rep *report, label string, tree *sx, got parseOut) {
 		}
 		if n.kind == "node" {
 			cs := calls[render(n)]
+			if rootNil && n == tree {
+				cs = calls["_"] // the root's action returned a nil interface: that is what _onBounds is handed
+			}
 			if first == 0 {
 				if len(cs) != 0 {
 					rep.fail("C16/no-call-for-empty-reduction", label, "_onBounds was called for "+render(n))
